@@ -408,6 +408,7 @@ func runC20(c *Ctx) {
 		}
 	}
 	c.R.Floor("C20.R3", 1)
+	c.zipSelection(fns, "C20.R5")
 	if nSinks == 0 {
 		c.R.Errorf("C20.R1 matched no sink fed by a zip entry name: UnzipToFolder changed shape and the rule would pass vacuously")
 	}
@@ -457,4 +458,210 @@ func endsWithSeparator(v ssa.Value) bool {
 		}
 	}
 	return false
+}
+
+// zipSelection is C20.R5: a file becomes an archive entry only after BOTH selection inputs decided so on that very
+// path - the caller's filter (nil, or called on the walked path and true) and the recursive flag (true, or the
+// comparison of the file's directory with the source directory decided "same directory"). The paths of the walk
+// callback are enumerated with phi nodes resolved per path, so a flag variable assigned by one test and overwritten
+// by the other is seen as "not decided on this path". It decides that structural part of "every file the filter and
+// the recursive flag select, and nothing else", not the round trip.
+func (c *Ctx) zipSelection(fns []*ssa.Function, rule string) {
+	n := 0
+	for _, fn := range fns {
+		var creates []*ssa.Call
+		for _, call := range ir.Calls(fn) {
+			if cc, ok := call.(*ssa.Call); ok {
+				switch ir.CalleeFullName(cc) {
+				case "(*archive/zip.Writer).Create", "(*archive/zip.Writer).CreateHeader":
+					creates = append(creates, cc)
+				}
+			}
+		}
+		if len(creates) == 0 || fn.Parent() == nil {
+			continue
+		}
+		// selection inputs captured from the enclosing function: a func(string) bool and a bool
+		var filter, flag ssa.Value
+		var others []ssa.Value
+		for _, fv := range fn.FreeVars {
+			pt, ok := fv.Type().Underlying().(*types.Pointer)
+			if !ok {
+				continue
+			}
+			switch t := pt.Elem().Underlying().(type) {
+			case *types.Signature:
+				if t.Params().Len() == 1 && t.Results().Len() == 1 && types.Identical(t.Results().At(0).Type(), types.Typ[types.Bool]) {
+					filter = fv
+				}
+			case *types.Basic:
+				if t.Kind() == types.Bool {
+					flag = fv
+				} else if t.Kind() == types.String {
+					others = append(others, fv)
+				}
+			}
+		}
+		if filter == nil && flag == nil {
+			continue
+		}
+		var pathParam *ssa.Parameter
+		for _, p := range fn.Params {
+			if b, ok := p.Type().Underlying().(*types.Basic); ok && b.Kind() == types.String {
+				pathParam = p
+				break
+			}
+		}
+		if pathParam == nil {
+			continue
+		}
+		// a walk that prunes directories (filepath.SkipDir) selects by other means: not analysed
+		prunes := false
+		ir.Instrs(fn, func(in ssa.Instruction) {
+			for _, op := range in.Operands(nil) {
+				if op != nil && *op != nil {
+					if g, ok := (*op).(*ssa.Global); ok && (g.Name() == "SkipDir" || g.Name() == "SkipAll") {
+						prunes = true
+					}
+				}
+			}
+		})
+		c.Saw(fn)
+		// data dependence (backward) of a value on the walked path / on a captured string
+		var dep func(v ssa.Value, want func(ssa.Value) bool, seen map[ssa.Value]bool, d int) bool
+		dep = func(v ssa.Value, want func(ssa.Value) bool, seen map[ssa.Value]bool, d int) bool {
+			if v == nil || seen[v] || d > 14 {
+				return false
+			}
+			seen[v] = true
+			if want(v) {
+				return true
+			}
+			switch x := v.(type) {
+			case *ssa.UnOp:
+				if a, ok := x.X.(*ssa.Alloc); ok && x.Op == token.MUL {
+					for _, st := range ir.StoresTo(a) {
+						if dep(st.Val, want, seen, d+1) {
+							return true
+						}
+					}
+					return false
+				}
+			}
+			in, ok := v.(ssa.Instruction)
+			if !ok {
+				return false
+			}
+			for _, op := range in.Operands(nil) {
+				if op != nil && *op != nil && dep(*op, want, seen, d+1) {
+					return true
+				}
+			}
+			return false
+		}
+		onPath := func(v ssa.Value) bool {
+			return dep(v, func(x ssa.Value) bool { return x == ssa.Value(pathParam) }, map[ssa.Value]bool{}, 0)
+		}
+		onSrc := func(v ssa.Value) bool {
+			return dep(v, func(x ssa.Value) bool {
+				for _, o := range others {
+					if x == o {
+						return true
+					}
+				}
+				return false
+			}, map[ssa.Value]bool{}, 0)
+		}
+		// candidates
+		var filterCalls []*ssa.Call
+		var dirTests []ssa.Value
+		ir.Instrs(fn, func(in ssa.Instruction) {
+			switch x := in.(type) {
+			case *ssa.Call:
+				if filter != nil && !x.Call.IsInvoke() {
+					if ld, ok := x.Call.Value.(*ssa.UnOp); ok && ld.Op == token.MUL && ld.X == filter {
+						if len(x.Call.Args) == 1 && onPath(x.Call.Args[0]) {
+							filterCalls = append(filterCalls, x)
+						}
+						return
+					}
+				}
+				if types.Identical(x.Type(), types.Typ[types.Bool]) && onPath(x) && onSrc(x) {
+					dirTests = append(dirTests, x)
+				}
+			case *ssa.BinOp:
+				if (x.Op == token.EQL || x.Op == token.NEQ) && onPath(x) && onSrc(x) {
+					if b, ok := x.X.Type().Underlying().(*types.Basic); ok && b.Info()&types.IsString != 0 {
+						dirTests = append(dirTests, x)
+					}
+				}
+			}
+		})
+		for _, cr := range creates {
+			n++
+			if prunes {
+				c.Decide(rule, fn, "selection delegated to directory pruning (not analysed)", cr, true, "")
+				continue
+			}
+			if filter != nil {
+				q := ir.PathQuery{Fn: fn, Target: func(in ssa.Instruction, val *ir.Valuation) bool {
+					if in != ssa.Instruction(cr) {
+						return false
+					}
+					if isNil, ok := val.KnownNil(filter); ok && isNil {
+						return false
+					}
+					for _, fc := range filterCalls {
+						if k, ok := val.Known(fc); ok && k {
+							return false
+						}
+					}
+					return true
+				}}
+				c.pathVerdict(rule, fn, "archived only if the filter is nil or accepted the path", cr, q,
+					"a file becomes an archive entry on a path where the filter was neither nil nor asked-and-true: files the filter rejects are archived (or the filter's verdict is overwritten before it is used)")
+			}
+			if flag != nil {
+				q := ir.PathQuery{Fn: fn, Target: func(in ssa.Instruction, val *ir.Valuation) bool {
+					if in != ssa.Instruction(cr) {
+						return false
+					}
+					if k, ok := val.KnownCell(flag); ok && k {
+						return false
+					}
+					for _, dt := range dirTests {
+						k, ok := val.Known(dt)
+						if !ok {
+							continue
+						}
+						if bo, isBin := dt.(*ssa.BinOp); isBin {
+							if (bo.Op == token.EQL) == k {
+								return false
+							}
+							continue
+						}
+						return false
+					}
+					return true
+				}}
+				c.pathVerdict(rule, fn, "archived only if recursive or the file lies directly in the source directory", cr, q,
+					"a file becomes an archive entry on a path where the recursive flag is not known true and the directory comparison did not decide 'same directory': files of sub-folders are archived in non-recursive mode (or the test result is overwritten before it is used)")
+			}
+		}
+	}
+	_ = n
+	c.R.Floor(rule, 2)
+}
+
+// pathVerdict records the result of a PathQuery: a witness is a violation.
+func (c *Ctx) pathVerdict(rule string, fn *ssa.Function, construct string, at ssa.Instruction, q ir.PathQuery, what string) {
+	w, err := q.Find()
+	switch {
+	case err != nil:
+		c.Undecided(rule, fn, construct, at, err.Error())
+	case w != nil:
+		c.Decide(rule, fn, construct, at, false, what+": path "+w.String(c.P))
+	default:
+		c.Decide(rule, fn, construct, at, true, "")
+	}
 }
